@@ -24,6 +24,8 @@ type raceInput struct {
 	RaceDetector     bool
 	Const            bool // constant recorder on (snapseq runs)
 	DynOff           bool `json:",omitempty"` // dynamic-threshold = false: the detector never builds a background
+	BadEvery         int  `json:",omitempty"` // snapseq: a bad frame after every n-th frame
+	Throttle         bool `json:",omitempty"` // snapseq: throttler on with a small bucket (6 s; minimum clip 2 s)
 }
 
 var raceVarNames = map[int]string{0: "ring-index", 1: "ring-slots", 2: "CurrentFrame", 3: "StartSnapshot", 4: "processor", 5: "headerInfo", 99: "unclassified"}
@@ -71,12 +73,16 @@ func snapSeqRun(in raceInput) (summary map[string]interface{}, ok bool) {
 	os.Mkdir(out, 0755)
 	toml := fmt.Sprintf("[lepton]\nframe-output = %q\n[thermal-recorder]\noutput-dir = %q\nconstant-recorder = %v\nmin-disk-space-mb = 0\npreview-secs = %d\nmin-secs = 1\nmax-secs = 3\n[windows]\nstart-recording = \"12:00\"\nstop-recording = \"12:00\"\n[thermal-throttler]\nactivate = false\n[thermal-motion]\ntrigger-frames = %d\n",
 		filepath.Join(dir, "s"), out, in.Const, in.Preview, in.Trigger)
+	if in.Throttle {
+		// the throttle belongs to the motion recorder alone: test recordings are never throttled
+		toml = strings.Replace(toml, "activate = false\n", "activate = true\nbucket-size = \"6s\"\nmin-refill = \"10m\"\n", 1)
+	}
 	if in.DynOff {
 		toml += "dynamic-threshold = false\n"
 	}
 	ioutil.WriteFile(filepath.Join(dir, "config.toml"), []byte(toml), 0644)
 	cmd := exec.Command(buildDir() + "/tr-driver")
-	cmd.Env = append(os.Environ(), "VERIF_DRIVER=snapseq", fmt.Sprintf("VERIF_ARGS=%s %d %d %d", dir, in.Frames, in.PauseUs, in.Requesters), "TZ=UTC")
+	cmd.Env = append(os.Environ(), "VERIF_DRIVER=snapseq", fmt.Sprintf("VERIF_ARGS=%s %d %d %d %d", dir, in.Frames, in.PauseUs, in.Requesters, in.BadEvery), "TZ=UTC")
 	stdout, _ := cmd.Output()
 	if in.Requesters > 0 {
 		// the finished files of the output directory: test recordings (uniform frames cause no motion)
@@ -160,7 +166,7 @@ func init() {
 	runners["TESTREC"] = func(rng *rand.Rand, n int, tier string, emit func(Case)) {
 		for i := 0; i < n; i++ {
 			every := 23 + rng.Intn(30)
-			in := raceInput{Preview: 1, Trigger: 2, Frames: 150 + rng.Intn(60), Conns: 1, Requesters: every, PauseUs: []int{0, 40}[i%2], Const: i%2 == 0, DynOff: i%2 == 1}
+			in := raceInput{Preview: 1, Trigger: 2, Frames: 150 + rng.Intn(60), Conns: 1, Requesters: every, PauseUs: []int{0, 40}[i%2], Const: i%2 == 0, DynOff: i%2 == 1, Throttle: i%2 == 1}
 			sum, ok := snapSeqRun(in)
 			why := ""
 			var reqs []int
@@ -322,11 +328,11 @@ func init() {
 		// 2b. freshness (sequential schedule): after each processed frame, and again after a
 		// camera 'clear', the snapshot is the last completed frame
 		{
-			in := raceInput{Preview: 1, Trigger: 2, Frames: frames / 2, Conns: 1, Requesters: 0, PauseUs: 7}
+			in := raceInput{Preview: 1, Trigger: 2, Frames: frames / 2, Conns: 1, Requesters: 0, PauseUs: 7, BadEvery: 11}
 			sum, ok := snapSeqRun(in)
-			stale, checks := num(sum["stale"])+num(sum["stale_after_clear"]), num(sum["checks"])+num(sum["after_clear"])
+			stale, checks := num(sum["stale"])+num(sum["stale_after_clear"])+num(sum["stale_after_bad"]), num(sum["checks"])+num(sum["after_clear"])+num(sum["after_bad"])
 			emit(Case{Coq: fmt.Sprintf("CFresh %d %d %s", checks, stale, coqBool(ok)), Input: in, Impl: sum,
-				Tags: []string{"freshness", "clear-then-snapshot"}, Nontriv: checks > 50, Key: "fresh"})
+				Tags: []string{"freshness", "clear-then-snapshot", "bad-frame-then-snapshot"}, Nontriv: checks > 50, Key: "fresh"})
 		}
 		// 3. data-race clause with the race detector
 		{
